@@ -13,3 +13,5 @@ def run(prog, rep):
     r_hdr.run_write_free(prog, rep)
     r_hdr.run_exists(prog, rep)
     r_err.run(prog, rep)
+    from ..rules import r_close as _rc
+    _rc.run_fapl(prog, rep)
